@@ -28,8 +28,9 @@ type VWrite struct {
 }
 
 type VDatagram struct {
-	Data []byte // the datagram as sent (true size len(Data))
-	From net.Addr
+	Data   []byte // the datagram as sent (true size len(Data))
+	From   net.Addr
+	Before func() // something that happens before this datagram arrives (an expiry, a request)
 }
 
 // VPacketConn is a fake net.PacketConn: WriteTo records the call (and may fail when Failing);
@@ -43,15 +44,25 @@ type VPacketConn struct {
 	Script   []VDatagram
 	ReadPos  int
 	CloseErr error
+	Gated    bool
+	Idle     chan struct{} // if set: with the script exhausted and the socket open, ReadFrom waits (for ever)
 }
 
 func (c *VPacketConn) ReadFrom(p []byte) (int, net.Addr, error) {
-	vWaitGate()
+	if c.Gated {
+		vWaitGate() // natively: the relay goroutine waits until the harness has scripted the socket
+	}
 	if c.ReadPos >= len(c.Script) {
+		if c.Idle != nil && c.Closed == 0 {
+			<-c.Idle
+		}
 		return 0, nil, net.ErrClosed
 	}
 	d := c.Script[c.ReadPos]
 	c.ReadPos++
+	if d.Before != nil {
+		d.Before()
+	}
 	n := copy(p, d.Data) // a datagram larger than the buffer is cut to len(p)
 	return n, d.From, nil
 }
@@ -105,10 +116,13 @@ type VListener struct {
 	Script  []net.Conn
 	Pos     int
 	Closed  int
+	Gated   bool
 }
 
 func (l *VListener) Accept() (net.Conn, error) {
-	vWaitGate()
+	if l.Gated {
+		vWaitGate()
+	}
 	if l.Pos >= len(l.Script) {
 		return nil, net.ErrClosed
 	}
@@ -202,6 +216,7 @@ type VMgrEnv struct {
 	asked     []net.IP // policy memo: the handler is a function of the peer IP
 	answers   []bool
 	RelayPort int      // if non-zero, relay sockets report this port
+	PortScript []int   // if set: the ports successive relay sockets report
 }
 
 func VNewManager(failAlloc, veto bool) *VMgrEnv {
@@ -216,7 +231,10 @@ func VNewManager(failAlloc, veto bool) *VMgrEnv {
 			if env.RelayPort != 0 {
 				addr.Port = env.RelayPort
 			}
-			pc := &VPacketConn{Name: "relay", Local: addr}
+			if n := len(env.Relays); n < len(env.PortScript) {
+				addr.Port = env.PortScript[n]
+			}
+			pc := &VPacketConn{Name: "relay", Local: addr, Gated: true}
 			env.Relays = append(env.Relays, pc)
 			return pc, addr, nil
 		},
@@ -225,7 +243,7 @@ func VNewManager(failAlloc, veto bool) *VMgrEnv {
 				return nil, nil, errNilRelaySocket
 			}
 			addr := &net.TCPAddr{IP: VIP4(), Port: VPort()}
-			l := &VListener{Address: addr}
+			l := &VListener{Address: addr, Gated: true}
 			env.Listeners = append(env.Listeners, l)
 			return l, addr, nil
 		},
